@@ -6,6 +6,7 @@ import RsMatterVerif.Model.Codec.ProtoHdr
 import RsMatterVerif.Model.Codec.StatusReport
 import Driver.C17More
 import Driver.C17X509 -- D16d
+import Driver.C17Der
 import Driver.Util
 /-!
 Driver for C17. One case = one codec (`case <id> <codec>`); every op line is self-contained:
@@ -303,6 +304,7 @@ def step (st : St) (line : String) : St × String :=
     | "status" => (st, stepStatus ws out)
     | "rbuf" => stepRbuf st ws out
     | "wbuf" => stepWbuf st ws out
+    | "derw" => (st, Driver.C17Der.step ws out)  -- D16c: ASN1Writer + CertRef::as_asn1
     | k =>
       match Driver.C17More.step k ws out with
       | some r => (st, r)
